@@ -314,7 +314,9 @@ def run_job(job):
     elif part == "lens":
         sh, nsh = job["shard"]
         top = 600 if tier == "quick" else 1000
-        lens = list(range(1, top + 1)) + [65535, 65536, 70000]
+        lens = list(range(1, top + 1)) + [65535, 65536, 70000, 100_001, 1_000_001]      # (521 and 10 001 are inside 1..top / covered below)
+        if top < 10_001:
+            lens.append(10_001)
         reps = ["OP_DUP", "OP_0", "OP_16", "OP_CHECKSIG", "OP_RETURN", "OP_1NEGATE"]
         for i, n in enumerate(lens):
             if i % nsh != sh:
